@@ -738,3 +738,103 @@ def c09_g5(ctx):
                     yield bad("C09-G5", key, at(f), "the start of the next gap can be %s, which is not bounded below by the window start: a gap can begin before the requested window" % txt[:200])
     if n == 0:
         raise Anchor("C09-G5", "definitions of the gap-start variable")
+
+
+@rule("C09", "C09-G6", 4, "the coalescing helper is applied to the very range whose end was just extended (same index expression)", also=("C20",))
+def c09_g6(ctx):
+    from core import dominators
+    from common import sstr
+
+    f = ctx.one("C09-G6", "segments::Segments::merge")
+    helper = ctx.one("C09-G6", "segments::merge")
+    eb = ExprBuilder(ctx.prog, f)
+    dom = dominators(f)
+    # writes `v[K].1 = ..` through IndexMut
+    writes = []
+    for b in f.live_blocks():
+        for s in f.blocks[b]["stmts"]:
+            if s["k"] != "assign":
+                continue
+            pj = s["place"]["proj"]
+            if len(pj) >= 2 and pj[0]["k"] == "deref" and pj[-1]["k"] == "field" and pj[-1].get("name") == "1":
+                for d in f.defs(s["place"]["local"]):
+                    if d[0] == "call":
+                        base = eb.call(d[1], d[2])
+                        if (callee_name(base) or "").endswith("index_mut") and len(base[3]) > 1:
+                            writes.append((b, sstr(base[3][1])))
+    n = 0
+    for b, t in f.all_calls():
+        d, r, _ = ctx.prog.callee_of(t)
+        if (r or d) != helper.norm:
+            continue
+        n += 1
+        k = sstr(eb.call(b, t)[3][1])
+        key = "Segments::merge:site#%d" % n
+        near = [w for w in writes if w[0] in dom.get(b, ()) or w[0] == b]
+        same = [w for w in near if w[1] == k]
+        if same:
+            yield ok("C09-G6", key, at(f, t["span"]["line"]), "coalesces at index %s, whose end was just written" % k[-60:])
+        else:
+            yield bad("C09-G6", key, at(f, t["span"]["line"]), "merge(v, %s) coalesces at an index whose end was not the one just extended (extended: %s): ranges swallowed by the extended one stay in the list and are counted as new" % (k[-80:], sorted({w[1][-60:] for w in near})))
+    if n == 0:
+        raise Anchor("C09-G6", "calls of segments::merge")
+
+
+@rule("C09", "C09-G7", 1, "a reported gap never extends beyond the window: its end is the window end, or the start of a held range tested to lie before the window end", also=("C08",))
+def c09_g7(ctx):
+    from common import simp, sstr
+
+    f = ctx.one("C09-G7", "segments::Segments::gaps")
+    params = {vn: l for vn, l, pj in f.var_places if not pj and 2 <= l <= f.arg_count}
+    names = sorted(params, key=lambda k: params[k])
+    if len(names) != 2:
+        raise Anchor("C09-G7", "Segments::gaps(start, end) parameters")
+    p_end = names[1]
+
+    def track(key):
+        return key[0] == "expr" and re.match(r"^(Lt|Gt|Le|Ge)\(", key[1]) is not None
+
+    fl = Flow(ctx.prog, ctx.mods, f, track, user_stop=True)
+    eb = ExprBuilder(ctx.prog, f, user_stop=True)
+    n = 0
+    for b, t in f.all_calls():
+        d, r, _ = ctx.prog.callee_of(t)
+        if not (r or d or "").endswith("Vec::push"):
+            continue
+        e = simp(eb.call(b, t))
+        tup = e[3][1] if len(e[3]) > 1 else None
+        if tup is None or tup[0] != "agg" or len(tup[5]) != 2:
+            continue
+        z = expr_str(tup[5][1])
+        if z == p_end:
+            continue
+        n += 1
+        key = "Segments::gaps:push(_, %s)" % z
+        worlds = fl.at_term(b)
+        zs = {z, z + ".*", z.replace(".*", "")}
+
+        def guard(dw):
+            for k, (pos, s) in dw.items():
+                if k[0] != "expr":
+                    continue
+                m = re.match(r"^(Lt|Gt|Le|Ge)\((.+), (.+)\)$", k[1])
+                if not m:
+                    continue
+                op, a, c = m.groups()
+                val = 1 if (pos and s == frozenset([1])) else (0 if (pos and s == frozenset([0])) else None)
+                if val is None:
+                    continue
+                # z < end  or  z <= end, in any spelling
+                if a in zs and c == p_end and ((op in ("Lt", "Le") and val == 1) or (op in ("Ge", "Gt") and val == 0)):
+                    return True
+                if c in zs and a == p_end and ((op in ("Gt", "Ge") and val == 1) or (op in ("Le", "Lt") and val == 0)):
+                    return True
+            return False
+
+        good, w = all_worlds_satisfy(worlds, guard)
+        if good and worlds:
+            yield ok("C09-G7", key, at(f, t["span"]["line"]), "under %s < window end" % z)
+        else:
+            yield bad("C09-G7", key, at(f, t["span"]["line"]), "the gap ending at %s is reported without a test that %s lies before the window end: the gap can extend beyond the requested window (state %s)" % (z, z, world_str(w) if w is not None else "unreachable"))
+    if n == 0:
+        raise Anchor("C09-G7", "gap pushes ending at a held range's start")
